@@ -307,6 +307,9 @@ class Runner:
 
 def run(ctx) -> Report:
     rep = Report("C05")
+    # the memo-key clause first: it needs no interpretation, and what it finds is reported even if a later clause cannot follow the code
+    from ..memokey import check_memo_keys, memo_rule  # noqa: F401
+    memo_rule(ctx, rep, "C05-key", ["ufl.algebra", "ufl.indexed", "ufl.indexsum", "ufl.tensors", "ufl.exproperators", "ufl.index_combination_utils"])
     W = World()
     R = Runner(ctx, rep)
     H = R.H
@@ -489,7 +492,6 @@ def run(ctx) -> Report:
         raise AnalysisError("fewer than 500 nodes were built from source: the lifting went vacuous")
     from ..memokey import memo_rule
 
-    memo_rule(ctx, rep, "C05-key", ["ufl.algebra", "ufl.indexed", "ufl.indexsum", "ufl.tensors", "ufl.exproperators", "ufl.index_combination_utils"])
     rep.explanation = (
         "The constructors of the expression language (__new__/__init__/_simplify_indexed of Sum, Product, Division, Power, Abs, Conj, "
         "Real, Imag, Indexed, IndexSum, ComponentTensor, ListTensor, the Expr operators of exproperators.py, as_tensor/as_vector/"
